@@ -73,7 +73,9 @@ def main():
         if demo_cmd:
             # the default-feature suite (existing tests + demo) passes either way; the demo command decides
             ok_without = ok_without and rcd0 == 0
-            ok_with = rc1 == 0 and rcd1 != 0 and bool(res["with_change"]["demo_cmd"]["failing"])
+            # the existing tests pass with the change: whatever fails in the default-feature run is one of the demo's own tests
+            ok_with = rcd1 != 0 and bool(res["with_change"]["demo_cmd"]["failing"]) and \
+                set(res["with_change"]["failing"]) <= set(res["with_change"]["demo_cmd"]["failing"])
         res["confirmed"] = bool(ok_without and ok_with)
         print(json.dumps(res, indent=1))
         if not res["confirmed"]:
